@@ -53,15 +53,15 @@ ZOO = {
     5: dict(profiles=["phases", "general"], quick=600000, thorough=7200000, fs=["ALL", "MIN"]),
     6: dict(profiles=["general", "guards", "plans"], quick=720000, thorough=8640000, fs=["ALL", "MIN"], probes=["const_plan"]),
     7: dict(profiles=["general", "guards", "plans"], quick=720000, thorough=8640000, fs=["ALL", "MIN"], cfgs=[1, 2, 3, 5, 6, 7, 8, 9, 12, 14, 16, 17], san=20000),
-    8: dict(profiles=["plans"], quick=900000, thorough=10800000),
-    9: dict(profiles=["plans"], quick=600000, thorough=7200000, cfgs=[0, 1, 3, 4, 6, 7, 8, 9, 11, 13, 16], san=20000),
-    10: dict(profiles=["plans"], quick=600000, thorough=7200000, probes=["plan_firstlast"]),
-    11: dict(profiles=["replica", "general", "guards"], quick=720000, thorough=8640000),
-    12: dict(profiles=["serial"], quick=600000, thorough=7200000),
+    8: dict(profiles=["plans"], quick=900000, thorough=10800000, fs=["ALL", ["PLANS"]]),
+    9: dict(profiles=["plans"], quick=600000, thorough=7200000, cfgs=[0, 1, 3, 4, 6, 7, 8, 9, 11, 13, 16], san=20000, fs=["ALL", ["PLANS"]]),
+    10: dict(profiles=["plans"], quick=600000, thorough=7200000, probes=["plan_firstlast"], fs=["ALL", ["PLANS"]]),
+    11: dict(profiles=["replica", "general", "guards"], quick=720000, thorough=8640000, fs=["ALL", ["HISTORY"]]),
+    12: dict(profiles=["serial"], quick=600000, thorough=7200000, fs=["ALL", ["SERIAL"]]),
     15: dict(profiles=["general", "phases"], quick=600000, thorough=7200000, fs=["ALL", "MIN"], cfgs=[1, 3, 5, 6, 8, 12, 16, 17]),
-    16: dict(profiles=["logging"], quick=360000, thorough=4320000, fs=["ALL", "VERBOSE"]),
-    17: dict(profiles=["fork", "general"], quick=360000, thorough=4320000, san=20000),
-    18: dict(profiles=["general", "plans", "guards"], quick=270000, thorough=3240000, san=30000),
+    16: dict(profiles=["logging"], quick=360000, thorough=4320000, fs=["ALL", "VERBOSE", ["LOG"]]),
+    17: dict(profiles=["fork", "general"], quick=360000, thorough=4320000, san=20000, fs=["ALL", "MIN"]),
+    18: dict(profiles=["general", "plans", "guards"], quick=270000, thorough=3240000, san=30000, fs=["ALL", "MIN"]),
 }
 MAX_SIZE = {"quick": 30, "thorough": 45}
 
@@ -152,12 +152,14 @@ def zoo_check(n, tier, seed):
             if name in pr and not pr[name]["ok"]:
                 R.violation(pr[name]["log"], "probe %s (%s header): a program using only the documented API does not compile/link/behave: see log" % (name, variant))
     exes = {}
+    fsname = lambda fs: fs if isinstance(fs, str) else ("+".join(fs) or "MIN")
     for fs in fss:
         for variant in ("shipped", "dev"):
             exe = need_zoo(fs, variant, "gcc", R)
             if not exe:
                 return 2
-            exes[(fs, variant)] = exe
+            exes[(fsname(fs), variant)] = exe
+    fss = [fsname(fs) for fs in fss]
     first = exes[(fss[0], "shipped")]
     # 1. regression replays
     reg = sorted(glob.glob(os.path.join(vc.REGRESS, P, "*.case")))
